@@ -711,6 +711,12 @@ def fs_edges(chk, sm, fail, quick):
         ('multi-file: crate directory with a non-ASCII name', {'tree/étoile/src/a.rs': GOOD}, ['--lang', 'swift', '-d', '{d}/out', '{d}/tree'], 'ok'),
         ('multi-file: crate directory named __', {'tree/__/src/a.rs': GOOD}, ['--lang', 'swift', '-d', '{d}/out', '{d}/tree'], 'ok'),
         ('non-UTF-8 file content', {'tree/c/src/a.rs': b'#[typeshare]\nstruct S { a: u8 } // \xff\xfe\n'}, O, 'diag'),
+        # a file cut off in the middle of a multi-byte character (seeded C07_g: a "better diagnostic" sliced the offending sequence by the
+        # width its lead byte announces, past the end of the file: a panic in a walker thread, seen as a hang)
+        ('file truncated inside a 3-byte character', {'tree/c/src/a.rs': b'#[typeshare]\nstruct S { a: u8 } // \xe2\x82'}, O, 'diag'),
+        ('file truncated inside a 4-byte character', {'tree/c/src/a.rs': b'#[typeshare]\nstruct S { a: u8 } // \xf0\x9f'}, O, 'diag'),
+        ('file ending in a lone lead byte', {'tree/c/src/a.rs': b'#[typeshare]\nstruct S { a: u8 }\n\xc3'}, O, 'diag'),
+        ('file that is a lone lead byte', {'tree/c/src/a.rs': b'\xe2', 'tree/c/src/b.rs': GOOD}, O, 'diag'),
         ('non-UTF-8 file name', {b'tree/c/src/\xff\xfe.rs': GOOD}, O, 'ok'),
         ('non-UTF-8 file name, multi-file', {b'tree/c/src/\xff\xfe.rs': GOOD}, ['--lang', 'typescript', '-d', '{d}/out', '{d}/tree'], 'ok'),
         ('non-UTF-8 file name with a parse error', {b'tree/c/src/\xff\xfe.rs': '#[typeshare]\nstruct S { a: u64 }\n'}, O, 'diag'),
